@@ -5,6 +5,7 @@
 
 pub mod engines;
 pub mod findings;
+pub mod fuzzdec;
 pub mod ids;
 pub mod keys;
 pub mod props;
